@@ -152,7 +152,10 @@ def _one_path(world, ex, con, fsrc, case, rets, raises, out):
     for label, clause in con.requires.items():
         ex.assume(ex.spec_bool(clause, frame, {}))
     for text, tree in con.old_exprs():
-        frame.old[text] = ex.spec_eval(text, frame, {})
+        try:
+            frame.old[text] = ex.spec_eval(text, frame, {})
+        except (Unsupported, PyExc):
+            pass        # an old() of another type case that makes no sense here; using it is a ContractError
     pre_params = dict(env)
     ex.pre_params = pre_params
     ex.cur_spec_frame = _spec_frame(frame, pre_params)
@@ -297,6 +300,8 @@ def run_lemma(world, lemma, tier="quick"):
                 d = case.get(p, C.OBJ)
                 env[p] = d.fresh(ex, p)
             frame = Frame(fsrc, env, contract=con)
+            if getattr(lemma, "setup", None):
+                lemma.setup(ex, frame)
             try:
                 ex.run_body(frame)
             except PyExc as pe:
